@@ -6,7 +6,8 @@ mutation that changes a skeleton changes the outcome set).
 request   c02 outcomes <backend> <world> <program>
   backend   mutex | mmap
   world     which metrics are registered when the program starts: letters `c` (unlabelled counter = value object 0) and/or
-            `p` (labelled counter = parent 0, label values 0/1, child for label value k = value object 10+k); `-` for none
+            `p` (labelled counter = parent 0, label values 0/1, child for label value k = value object 10+k); `q` = `p` whose
+            children for label values 0 and 1 already exist (ids 900, 901) when the threads start; `-` for none
   program   threads separated by `|`, calls by `,`:
               inc:o:a   get:o   lab:k   linc:k:a   rem:k   clr   reg:c   unreg:c   col   rcol:c   rrcol:c
             (rcol:c = registry.collect() with a collector that registers c, unregisters c and does a restricted lookup from
@@ -64,6 +65,7 @@ structure Cfg where
   bk : Backend
   hasC : Bool
   hasP : Bool
+  pre : Bool := false
 
 def incSk (bk : Backend) : List Sk := match bk with | .mutex => MutexValue_inc | .mmap => MmapedValue_inc
 def getSk (bk : Backend) : List Sk := match bk with | .mutex => MutexValue_get | .mmap => MmapedValue_get
@@ -276,13 +278,14 @@ def outcomeOf (prims : List (List Prim)) (cells stored : List ICell) (n : Node) 
     "/".intercalate (per ++ [finalStr stored n.s])
 
 /-- all outcomes by depth-first search over the interleavings, memoised on the (finite) relevant part of the state -/
-def explore (prims : List (List Prim)) (maxNodes : Nat) : Option (Nat × List String) := Id.run do
+def explore (pre : Bool) (prims : List (List Prim)) (maxNodes : Nat) : Option (Nat × List String) := Id.run do
   let progs : List Code := prims.map (fun ps => (ps.map (fun p => p.call.code)).flatten)
   let cells := cellsOf progs
   let locks := locksOf progs
   let stored := (storedCells progs).toArray.qsort (fun a b => a.2 < b.2) |>.toList
   let nthr := progs.length
-  let init : Node := { s := Model.Conc.init (fun _ => []) progs, obs := Array.replicate nthr [] }
+  let c0 : ICell → CVal := fun c => if pre && c.1 == .metrics && c.2 == 0 then [(0, 900), (1, 901)] else []
+  let init : Node := { s := Model.Conc.init c0 progs, obs := Array.replicate nthr [] }
   let mut stack : Array Node := #[init]
   let mut seen : Std.HashSet String := {}
   let mut outs : Std.HashSet String := {}
@@ -321,8 +324,10 @@ def explore (prims : List (List Prim)) (maxNodes : Nat) : Option (Nat × List St
 
 def parseCfg (bk world : String) : Option Cfg :=
   match bk with
-  | "mutex" => some { bk := .mutex, hasC := world.contains 'c', hasP := world.contains 'p' }
-  | "mmap" => some { bk := .mmap, hasC := world.contains 'c', hasP := world.contains 'p' }
+  | "mutex" => some { bk := .mutex, hasC := world.contains 'c', hasP := world.contains 'p' || world.contains 'q',
+                      pre := world.contains 'q' }
+  | "mmap" => some { bk := .mmap, hasC := world.contains 'c', hasP := world.contains 'p' || world.contains 'q',
+                     pre := world.contains 'q' }
   | _ => none
 
 def parseProgram (cfg : Cfg) (f : String) : Option (List (List Prim)) :=
@@ -350,7 +355,7 @@ def handle : List String → String
       match parseProgram cfg prog with
       | none => "err bad-program"
       | some prims =>
-        match explore prims 400000 with
+        match explore cfg.pre prims 400000 with
         | none => "err too-large"
         | some (cnt, outs) => s!"ok {cnt} {";".intercalate outs}"
   | ["welllocked"] => "ok " ++ wellLockedReport
